@@ -27,10 +27,16 @@ def specs(defs, twins, derived):
 
 
 def kani_part(report, tier, backend, src, allspecs, derived, defs):
-    pre = G.PRELUDE + ("use quantities::Decimal;\n" if backend == "dec" else "") + src
-    for q in allspecs:
+    from props import synthdefs
+    pre = G.PRELUDE + ("use quantities::Decimal;\n" if backend == "dec" else "") + src + synthdefs.SYNTH_RS
+    for q in allspecs + synthdefs.ALL:
         pre += G.tables(q, backend)
     kc = KaniCrate("c11" + backend[0], backend, extra_src=pre)
+    for q in synthdefs.ALL:           # the fixed synthetic definitions: declared names / symbols / prefixes / scales
+        h = C07.harness_f64(q) if backend == "f64" else C07.harness_dec(q)
+        h.name = "table_fix_" + q.name.lower()
+        h.key = "%s fixture %s table" % (backend, q.name)
+        kc.add(h)
     for q in allspecs:
         h = C07.harness_f64(q) if backend == "f64" else C07.harness_dec(q)
         h.name = "table_" + q.name.lower()
